@@ -141,12 +141,33 @@ def soup(dialect, rng, kws, n_items, allow_bad=True):
     return ''.join(parts)
 
 
+def lex_domain(rng):
+    def word():
+        return rng.choice('abcxyzSKI_') + ''.join(rng.choice('abcxyzSKI_0189') for _ in range(rng.randint(0, 9)))
+    k = rng.random()
+    if k < 0.25:
+        return word()
+    if k < 0.5:
+        return '.'.join(word() for _ in range(rng.randint(2, 5)))
+    if k < 0.8:
+        body = ''.join(rng.choice(['a', ' ', '`', '.', "'", '"', '\n', '\x00', 'é', '\ud800', '\U0001f600', '\\', '--', '/*', 'select'])
+                       for _ in range(rng.randint(1, 6)))
+        return '`' + body.replace('`', '``') + '`'
+    if k < 0.9:
+        return ''.join(rng.choice('0123456789') for _ in range(rng.randint(1, 40)))
+    return word() + rng.choice('.,();=<>+*/%[]{}:~') + word()
+
+
 def texts(dialect, rng, n, p_corpus=0.15, p_mut=0.2):
     js = rules_of(dialect)
     kws = keyword_words(js)
     corp = corpus.load()
     for i in range(n):
         k = rng.random()
+        if rng.random() < 0.12:
+            # the domains of the C04Lex theorems: plain words, dotted paths, back-quoted names with any characters, digit strings
+            yield 'c04lex', lex_domain(rng)
+            continue
         if k < p_corpus:
             yield 'corpus', rng.choice(corp)
         elif k < p_corpus + p_mut:
